@@ -182,4 +182,111 @@ theorem nj_leaves (n : Nat) (D : Nat → Nat → Rat) (t : T Rat) (h : neighborJ
     · cases h; exact hp
     · cases h
 
+
+/-! ### totality: the loop never falls through to `None` -/
+
+theorem exists_live (n : Nat) (cl : Nat → Bool) (h : 1 ≤ liveCount n cl) : ∃ k, k < n ∧ cl k = false := by
+  apply Classical.byContradiction
+  intro hne
+  have hall : ∀ a ∈ List.range n, (fun k => if cl k then 0 else 1) a = 0 := by
+    intro a ha
+    have ha' := List.mem_range.mp ha
+    cases hc : cl a with
+    | true => simp [hc]
+    | false => exact absurd ⟨a, ha', hc⟩ hne
+  have := sum_zero (fun k => if cl k then 0 else 1) (List.range n) hall
+  unfold liveCount at h
+  omega
+
+theorem exists_two_live (n : Nat) (cl : Nat → Bool) (h : 2 ≤ liveCount n cl) :
+    ∃ a b, b < a ∧ a < n ∧ cl a = false ∧ cl b = false := by
+  obtain ⟨k, hk, hck⟩ := exists_live n cl (by omega)
+  have h2 := liveCount_upd n cl k hk hck
+  obtain ⟨k', hk', hck'⟩ := exists_live n (upd cl k true) (by omega)
+  have hne : k' ≠ k := by
+    intro e; subst e; simp [upd] at hck'
+  have hck'' : cl k' = false := by simpa [upd, hne] using hck'
+  rcases Nat.lt_or_gt_of_ne hne with hlt | hgt
+  · exact ⟨k, k', hlt, hk, hck, hck''⟩
+  · exact ⟨k', k, hgt, hk', hck'', hck⟩
+
+theorem njStep_ne_none {n : Nat} {s : NState} (h : NInv n s) : njStep n s ≠ none := by
+  intro hs
+  have hcount : 3 ≤ liveCount n s.cl := by have := h.2.1; have := h.2.2; omega
+  unfold njStep at hs
+  split at hs
+  · rename_i hmin
+    obtain ⟨a, b, hba, han, hca, hcb⟩ := exists_two_live n s.cl (by omega)
+    rcases scanMin_none hmin a b hba han with h1 | h1 <;> simp_all
+  · rename_i m i j hmin
+    obtain ⟨hji, hin, hci, hcj, _, _⟩ := scanMin_some hmin
+    simp only at hs
+    split at hs
+    · cases hs
+    · split at hs
+      · rename_i hfind
+        have hij : i ≠ j := by omega
+        have c1 := liveCount_upd n s.cl i hin hci
+        have hcj' : upd s.cl i true j = false := by
+          have : j ≠ i := fun e => hij e.symm
+          simp [upd, this, hcj]
+        have c2 := liveCount_upd n (upd s.cl i true) j (by omega) hcj'
+        obtain ⟨k, hk, hck⟩ := exists_live n (upd (upd s.cl i true) j true) (by omega)
+        have := List.find?_eq_none.mp hfind k (List.mem_range.mpr hk)
+        simp [hck] at this
+      · cases hs
+
+theorem njStep_inl_nrem {n : Nat} {s s' : NState} (h : NInv n s) (hs : njStep n s = some (.inl s')) :
+    s'.nrem + 1 = s.nrem := by
+  have h' := njStep_inl h hs
+  unfold njStep at hs
+  split at hs
+  · cases hs
+  · rename_i m i j hmin
+    obtain ⟨hji, hin, hci, hcj, _, _⟩ := scanMin_some hmin
+    simp only at hs
+    split at hs
+    · cases hs
+      have hcnt := liveCount_upd n s.cl j (by omega) hcj
+      have e1 : n - countClustered n (upd s.cl j true) = liveCount n (upd s.cl j true) := h'.2.1
+      have e2 := h.2.1
+      show n - countClustered n (upd s.cl j true) + 1 = s.nrem
+      omega
+    · split at hs <;> cases hs
+
+theorem njLoop_total (n : Nat) : ∀ (fuel : Nat) (s : NState), NInv n s → s.nrem ≤ fuel + 2 →
+    ∃ t, njLoop n fuel s = some t := by
+  intro fuel
+  induction fuel with
+  | zero => intro s h hf; have := h.2.2; omega
+  | succ fuel ih =>
+    intro s h hf
+    unfold njLoop
+    cases hs : njStep n s with
+    | none => exact absurd hs (njStep_ne_none h)
+    | some r =>
+      cases r with
+      | inl s' =>
+        have := njStep_inl_nrem h hs
+        exact ih s' (njStep_inl h hs) (by omega)
+      | inr t => exact ⟨t, rfl⟩
+
+/-- **NJ always returns a tree**: for every matrix that passes the input checks (`n ≥ 4`) the loop
+reaches the final three-way join; it never leaves through the "all clustered" `break` (which would
+make the Python function return `None`). -/
+theorem nj_total (n : Nat) (D : Nat → Nat → Rat) (h1 : allcloseSym n D = true) (h2 : 4 ≤ n)
+    (h3 : anyNegative n D = false) : ∃ t, neighborJoining n D = .ok t := by
+  obtain ⟨t, ht⟩ := njLoop_total n n (NState.init n D) (NInv_init n D h2) (by simp [NState.init])
+  have hp := njLoop_leaves n n _ t (NInv_init n D h2) ht
+  refine ⟨t, ?_⟩
+  have hn : ¬ n < 4 := by omega
+  simp only [neighborJoining, h1, h3, hn, ht, mkTree]
+  have hall : (t.leaves.all fun x => decide (x < t.leaves.length)) = true := by
+    rw [List.all_eq_true]
+    intro x hx
+    have hx' : x ∈ List.range n := hp.mem_iff.mp hx
+    have hlen : t.leaves.length = n := by rw [hp.length_eq]; simp
+    simp [hlen, List.mem_range.mp hx']
+  simp [hall]
+
 end BiotiteModel.C19
